@@ -54,6 +54,18 @@ func (s *Sink) Put(prop int, id string, in, obs sx.V, desc interface{}) {
 	s.N++
 }
 
+// PutRaw records a case whose input/observation are already in wire form.
+func (s *Sink) PutRaw(prop int, id, in, obs string, desc interface{}) {
+	s.mu.Lock()
+	defer s.mu.Unlock()
+	fmt.Fprintf(s.lines, "%d\t%s\t%s\t%s\n", prop, id, in, obs)
+	m := map[string]interface{}{"id": id, "prop": prop, "case": desc}
+	b, _ := json.Marshal(m)
+	s.meta.Write(b)
+	s.meta.WriteByte('\n')
+	s.N++
+}
+
 func (s *Sink) Close() {
 	s.lines.Flush()
 	s.meta.Flush()
